@@ -4,6 +4,7 @@
 -/
 import Emitter.Lemmas.Mqtt
 import Emitter.Lemmas.MqttSpec
+import Emitter.Props.Tie.Mqtt
 namespace Emitter.C16
 open Emitter Emitter.Mqtt
 
